@@ -123,6 +123,13 @@ def pat_alts(p):
         for c in p["cases"]:
             out.extend(pat_alts(c))
         return out
+    if p["k"] == "PIdent" and p.get("sub") is not None:
+        return pat_alts(p["sub"])  # `x @ (A | B)`
+    if p["k"] == "PTupleStruct" and p.get("segs") and p["segs"][-1] == "Some" and len(p.get("elems") or []) == 1:
+        inner = pat_alts(p["elems"][0])
+        if len(inner) > 1:
+            # `Some(x @ (A | B))` stands for Some(A) | Some(B)
+            return [dict(p, elems=[i]) for i in inner]
     return [p]
 
 
